@@ -491,6 +491,26 @@ def do_op(s, mc, op, rng):
             m2.drain()
             old += [(m2, d) for d in m2.dgrams[-8:] if _first_char(d) in b"pP0123456789abcdefABCDEF"]
         k.run(k.now + rng.choice([61, 62, 75]) * US)
+        if rng.random() < 0.5:
+            # before anybody reconnects: a host speaking another protocol version says hello (refused), and the old clients -
+            # which have not noticed that their sessions ran out - log in again with the challenge they were given long ago, ask for
+            # data and are sent packets.  An expired session stays expired; whatever is sent to it still respects its settings.
+            st_ = mclient.ModelClient("10.53.4.%d" % rng.randint(1, 200), (scen.SERVER_IP, 53), s.qdomain, s.sim.password, random.Random(rng.getrandbits(32)), qtype=mc.qtype)
+            k.add_actor(st_.ip, st_)
+            for _v in range(rng.randint(1, 3)):
+                st_.version(version=rng.choice([0x00000501, 0x00000503, 0, 0xFFFFFFFF]))
+            for m2 in s.mcs:
+                m2.drain()
+                keep_ = (m2.login_reply, m2.tun_ip)
+                m2.login()
+                m2.login_reply, m2.tun_ip = keep_
+                f = proto.make_frame(s.server_tun_ip, m2.tun_ip, (s.ident << 8) | 0xE1, rng.choice([600, 1000]), "random", rng)
+                s.ident += 1
+                s.offered_down.append(f)
+                k.offer_tun("srv", f, None)
+                for _ in range(rng.randint(2, 4)):
+                    m2.ping(wait_us=30000)
+                m2.drain()
         for m2 in s.mcs:
             m2.drain()
             m2.replies.clear()
